@@ -1292,4 +1292,5 @@ func Run(c *hx.Ctx) {
 	pairs2(c, c.N(2500, 25000))
 	dynPairs(c, tmp, c.N(400, 6000))
 	dyns(c, tmp, c.N(240, 3000))
+	dynUpds(c, c.N(150, 1500))
 }
